@@ -74,6 +74,18 @@ type reqSpec struct {
 	Server string
 	Sigs   [3]int // per kid0, kid1, rsa: 0 none 1 valid 2 bad
 	AtTS   int64
+	Rule   int  `json:",omitempty"` // 0 = the scenario's rule, 1 = strict, 2 = lenient (batches that mix room versions)
+	Twin   bool `json:",omitempty"` // the message is byte-identical to request 0's (same object signed once, asked about twice)
+}
+
+func (sc *scenario) strictFor(rq reqSpec) bool {
+	switch rq.Rule {
+	case 1:
+		return true
+	case 2:
+		return false
+	}
+	return sc.Strict
 }
 
 type scenario struct {
@@ -301,14 +313,14 @@ func reference(sc *scenario) (must, may []bool, err bool, refetch map[lr]bool) {
 		if rq.Sigs[ki] != 1 { // only a signature made with the genuine key can verify under the genuine key
 			// a "bad" signature was made with the evil key: it verifies under the evil key
 			if rq.Sigs[ki] == 2 && string(key.Key) == string(evilKey(rq.Server, kid).Pub) {
-				return validAt(rq.AtTS, int64(key.ValidUntilTS), int64(key.ExpiredTS), N, sc.Strict)
+				return validAt(rq.AtTS, int64(key.ValidUntilTS), int64(key.ExpiredTS), N, sc.strictFor(rq))
 			}
 			return false
 		}
 		if string(key.Key) != string(goodKey(rq.Server, kid).Pub) {
 			return false
 		}
-		return validAt(rq.AtTS, int64(key.ValidUntilTS), int64(key.ExpiredTS), N, sc.Strict)
+		return validAt(rq.AtTS, int64(key.ValidUntilTS), int64(key.ExpiredTS), N, sc.strictFor(rq))
 	}
 	for i, rq := range sc.Reqs {
 		for ki, k := range kids {
@@ -342,7 +354,17 @@ func runScenario(r *harness.Run, sc *scenario) error {
 	}
 	var reqs []gmsl.VerifyJSONRequest
 	for i, rq := range sc.Reqs {
-		reqs = append(reqs, gmsl.VerifyJSONRequest{ServerName: spec.ServerName(rq.Server), AtTS: spec.Timestamp(rq.AtTS), Message: message(i, rq), ValidityCheckingFunc: check})
+		c, mi := check, i
+		if rq.Rule != 0 {
+			c = gmsl.NoStrictValidityCheck
+			if sc.strictFor(rq) {
+				c = gmsl.StrictValiditySignatureCheck
+			}
+		}
+		if rq.Twin {
+			mi = 0
+		}
+		reqs = append(reqs, gmsl.VerifyJSONRequest{ServerName: spec.ServerName(rq.Server), AtTS: spec.Timestamp(rq.AtTS), Message: message(mi, rq), ValidityCheckingFunc: c})
 	}
 	var res []gmsl.VerifyJSONResult
 	var err error
@@ -366,10 +388,10 @@ func runScenario(r *harness.Run, sc *scenario) error {
 	for i := range reqs {
 		got := res[i].Error == nil
 		if got && !may[i] {
-			return fmt.Errorf("request %d (%+v) reported verified, but no key supplied by the database or a fetcher both verifies the signature and was valid at %d (strict=%v)", i, sc.Reqs[i], sc.Reqs[i].AtTS, sc.Strict)
+			return fmt.Errorf("request %d (%+v) reported verified, but no key supplied by the database or a fetcher both verifies the signature and was valid at %d (strict=%v)", i, sc.Reqs[i], sc.Reqs[i].AtTS, sc.strictFor(sc.Reqs[i]))
 		}
 		if !got && must[i] {
-			return fmt.Errorf("request %d (%+v) refused (%v) although the database / first answering fetcher supplied a key that verifies it and was valid at %d (strict=%v)", i, sc.Reqs[i], res[i].Error, sc.Reqs[i].AtTS, sc.Strict)
+			return fmt.Errorf("request %d (%+v) refused (%v) although the database / first answering fetcher supplied a key that verifies it and was valid at %d (strict=%v)", i, sc.Reqs[i], res[i].Error, sc.Reqs[i].AtTS, sc.strictFor(sc.Reqs[i]))
 		}
 		if got {
 			r.Outcome("verified")
@@ -833,6 +855,37 @@ func run(r *harness.Run) {
 			r.Count("A_executions", st.Executions)
 			r.Transition(st.ChoicePts)
 		}
+	}
+	// (A'') twins: the same signed object asked about two or three times in one batch under different validity rules (a batch
+	// that mixes room versions), every order of the rules x timestamp menu x database state of the key x first fetcher
+	{
+		type tj struct {
+			at, db, f int
+		}
+		var tjobs []tj
+		for at := range atMenu {
+			for db := range dbStates {
+				for f := range fetcherModes {
+					tjobs = append(tjobs, tj{at, db, f})
+				}
+			}
+		}
+		rules := [][]int{{2, 1}, {1, 2}, {2, 1, 2}, {1, 2, 1}, {2, 2, 1}, {1, 1, 2}}
+		r.Parallel(len(tjobs), func(i int) {
+			j := tjobs[i]
+			for _, rl := range rules {
+				sc := &scenario{Fetchers: []int{j.f, 0}}
+				sc.DB[0][0], sc.DB[0][1], sc.DB[1][0], sc.DB[1][1] = j.db, j.db, 0, 0
+				for _, x := range rl {
+					sc.Reqs = append(sc.Reqs, reqSpec{Server: srvs[0], Sigs: [3]int{1, 0, 0}, AtTS: atMenu[j.at], Rule: x, Twin: true})
+				}
+				if err := runScenario(r, sc); err != nil {
+					r.Violation("scenario-twins:"+harness.J(sc), err.Error(), "scenario", sc)
+				}
+				r.Nontrivial(harness.J(sc))
+			}
+		})
+		r.Count("A2_twin_batches", int64(len(tjobs)*len(rules)))
 	}
 	// (B)
 	for _, ask := range []string{"s1.org", "s2.org"} {
